@@ -4,6 +4,21 @@ import json, glob, os, re
 V = os.path.dirname(os.path.abspath(__file__))
 # what had to be strengthened before the check caught the change (hand-maintained)
 STRENGTHENED = {
+ "C01d-m1": "aliasing histories: shapes built from caller-owned slices / pointer lists / Parms structs which the caller then overwrites, re-slices, appends to or zeroes, compared with a twin built from a private copy",
+ "C01d-m2": "parameter-regime strata for every primitive without a model (spiral, cams, flange, rack, spline, voxel, meshes) with oracles that take their region from the constructor's PARAMETERS (witness points along the whole parameter range, outline tracing) and a wider box-relative search (4x, 12x)",
+ "C04d-m1": "build histories in one process: caller-owned segment slices re-used after other builds, earlier meshes re-evaluated, two meshes evaluated alternately; caller data must stay bit-identical",
+ "C06d-m1": "the same model VALUE rendered twice by one renderer value with an in-place change in between (SetMin/SetMax/SetExtrude, user field parameter, filling CacheSDF2), and histories of different fields with the SAME box and cell count; shared kit, so also C05, C07, C08",
+ "C08d-m1": "same-box histories (see C06d-m1)",
+ "C09d-m3": "layers 2.5x..100x (thorough 400x) larger than what can be in flight, with FORCED schedules (evaluations held until N others have started: hold-first, starve-all-but-one, rolling lag), concurrent layers, a 490k-points-per-layer render",
+ "C11d-m1": "file histories for every sink and entry point (prior longer / shorter / garbage file, same path twice, drawing objects saved twice and extended)",
+ "C11d-m3": "producers that own and re-use their scratch slice (refill, poison, windows) with late-decoding direct sinks",
+ "C15d-m1": "one-process export histories (failing calls followed by successful ones on meshes sharing vertices, interleaved exports)",
+ "C16d-m1": "operation histories on one union value (Evaluate / EvaluateSlow / SetMin with every blend and back, repeated and alternating points) against unions built from scratch in the configuration of each step",
+ "C16d-m2": "interval pairs with gaps / overlaps of 0, 1..16 ulps, 1e-15..1e-9 relative and absolute at every decade 1e-12..1e12, also produced by MinMaxDist2 of tiny and huge boxes; the same sweeps for MinMaxDist2 and the pruning oracle",
+ "C17d-m2": "curves and polygons with extent/offset from 3e-6 down to 1e-16 and scales 2^-500..2^500, judged per axis by the exact de Casteljau point with a tolerance relative to the axis magnitude plus exactly the coefficient drops the 1e-12 rule permits",
+ "C19d-m1": "all shapes rendered by one renderer value share ONE explicit sampled box and cell count (same lattice points), compared with fresh values",
+ "C19d-m3": "construction paths: struct literal, zero value, fields assigned afterwards, copies of fresh and used values, for V1 and V2 with their knobs",
+ "C20d-m2": "near-collinear hull clusters (defect 1e-3..1e-12, spacing 1e-1..1e-4 of the extent) squeezed by bisection to the boundary of an exact, scale-aware general-position class (big-integer predicates against the specified super triangle)",
  "C02c-m1": "exact-seam points on every n-ary node (box-edge arrangement, bisection to exact zeros, dyadic layouts in every operand order); same stratum in C16",
  "C06c-m2": "over-estimating sign-correct fields (gain 2/10/1000, constant or growing) for the uniform renderers, with a metamorphic triangle-count / vertex oracle; also in C05, C08",
  "C06c-m3": "one renderer value over a history of models of different size and cell count, Info-only steps, compared bit for bit with fresh values; every triangle inside one lattice cell; also in C05, C07, C08, C09",
